@@ -28,7 +28,10 @@ theorem cnt_step (w w' : Nat) (h0 : 16777216 ≤ w) (h : w' * 2048 ≤ w * 2018)
     ∀ n, cnt n w' + 1 ≤ cnt (n + 1) w := by
   intro n
   induction n with
-  | zero => simp [cnt]; omega
+  | zero =>
+    show 0 + 1 ≤ 0 + (if 16777216 * 2048 ^ 0 ≤ w * 2018 ^ 0 then 1 else 0)
+    rw [if_pos (by simpa using h0)]
+    exact Nat.le_refl _
   | succ n ih =>
     have hstep : 16777216 * 2048 ^ n ≤ w' * 2018 ^ n → 16777216 * 2048 ^ (n + 1) ≤ w * 2018 ^ (n + 1) := by
       intro hp
@@ -46,20 +49,25 @@ theorem cnt_step (w w' : Nat) (h0 : 16777216 ≤ w) (h : w' * 2048 ≤ w * 2018)
 set_option exponentiation.threshold 400 in
 theorem pow_fact : 4294967296 * 2018 ^ 377 < 16777216 * 2048 ^ 377 := by decide
 
+theorem cnt_succ (n w : Nat) :
+    cnt (n + 1) w = cnt n w + (if 16777216 * 2048 ^ n ≤ w * 2018 ^ n then 1 else 0) := rfl
+
+theorem cnt_top (n w : Nat) (h : ¬ (16777216 * 2048 ^ n ≤ w * 2018 ^ n)) : cnt (n + 1) w = cnt n w := by
+  rw [cnt_succ, if_neg h, Nat.add_zero]
+
 set_option exponentiation.threshold 400 in
+theorem pow_fact' (w : Nat) (hw : w < 4294967296) : ¬ (16777216 * 2048 ^ 377 ≤ w * 2018 ^ 377) := by
+  intro hc
+  have h1 : w * 2018 ^ 377 ≤ 4294967296 * 2018 ^ 377 := Nat.mul_le_mul_right _ (by omega)
+  exact absurd (Nat.lt_of_le_of_lt (Nat.le_trans hc h1) pow_fact) (Nat.lt_irrefl _)
+
 /-- one more shrink step costs one unit of potential -/
 theorem pot_step (w w' : Nat) (h0 : 16777216 ≤ w) (hw : w < 4294967296) (h : w' * 2048 ≤ w * 2018) :
     pot w' + 1 ≤ pot w := by
-  have h1 := cnt_step w w' h0 h 377
-  have h2 : ¬ (16777216 * 2048 ^ 377 ≤ w * 2018 ^ 377) := by
-    intro hc
-    have : w * 2018 ^ 377 ≤ 4294967296 * 2018 ^ 377 := Nat.mul_le_mul_right _ (by omega)
-    have := pow_fact
-    omega
-  unfold pot
-  have h3 : cnt 378 w = cnt 377 w + (if 16777216 * 2048 ^ 377 ≤ w * 2018 ^ 377 then 1 else 0) := rfl
-  rw [h3, if_neg h2] at h1
-  omega
+  have h1 : cnt 377 w' + 1 ≤ cnt (377 + 1) w := cnt_step w w' h0 h 377
+  have h2 : cnt (377 + 1) w = cnt 377 w := cnt_top 377 w (pow_fact' w hw)
+  rw [h2] at h1
+  exact h1
 
 theorem pot_le (w : Nat) : pot w ≤ 377 := cnt_le 377 w
 
@@ -69,44 +77,63 @@ def WOK (d : RangeDecoder) : Prop := 16777216 ≤ d.width ∧ d.width < 42949672
 /-- the potential: bits still decodable without reading, plus 378 per unread source byte -/
 def Psi (d : RangeDecoder) : Nat := pot d.width + 378 * d.src.length
 
+theorem shrink_facts {p w : Nat} (hp : ProbOK p) (hw1 : 16777216 ≤ w) (hw2 : w < 4294967296) :
+    thr p w * 2048 ≤ w * 2018 ∧ (w - thr p w) * 2048 ≤ w * 2018 := by
+  obtain ⟨hthr, ht0, ht1⟩ := thr_bounds hp hw1 hw2
+  obtain ⟨hp1, hp2⟩ := hp
+  have a1 : (w / 2048) * p ≤ (w / 2048) * 2017 := Nat.mul_le_mul_left _ hp2
+  have a2 : (w / 2048) * 31 ≤ (w / 2048) * p := Nat.mul_le_mul_left _ hp1
+  generalize thr p w = t at *
+  generalize (w / 2048) * p = tp at *
+  constructor <;> omega
+
 /-- **one bit costs one unit**, on arbitrary input -/
 theorem decodeBit_pot (p : Nat) (d : RangeDecoder) (b p' : Nat) (d' : RangeDecoder) (hp : ProbOK p)
     (hw : WOK d) (hd : decodeBit p d = some (b, p', d')) : WOK d' ∧ Psi d' + 1 ≤ Psi d := by
   obtain ⟨hw1, hw2⟩ := hw
-  obtain ⟨hthr, ht0, ht1⟩ := thr_bounds hp hw1 hw2
+  obtain ⟨_, ht0, ht1⟩ := thr_bounds hp hw1 hw2
   have hthr' : ((d.width >>> probBits) * p) &&& 0xFFFFFFFF = thr p d.width := rfl
-  obtain ⟨hp1, hp2⟩ := hp
-  have a1 : (d.width / 2048) * p ≤ (d.width / 2048) * 2017 := Nat.mul_le_mul_left _ hp2
-  have a2 : (d.width / 2048) * 31 ≤ (d.width / 2048) * p := Nat.mul_le_mul_left _ hp1
-  have s0 : thr p d.width * 2048 ≤ d.width * 2018 := by omega
-  have s1 : (d.width - thr p d.width) * 2048 ≤ d.width * 2018 := by omega
+  obtain ⟨s0, s1⟩ := shrink_facts hp hw1 hw2
   have q0 := pot_step d.width (thr p d.width) hw1 hw2 s0
   have q1 := pot_step d.width (d.width - thr p d.width) hw1 hw2 s1
-  have l0 := pot_le ((thr p d.width * 256) &&& 0xFFFFFFFF)
-  have l1 := pot_le (((d.width - thr p d.width) * 256) &&& 0xFFFFFFFF)
+  have l0 := pot_le (thr p d.width * 256 % 4294967296)
+  have l1 := pot_le ((d.width - thr p d.width) * 256 % 4294967296)
   unfold decodeBit at hd
-  simp only [hthr'] at hd
+  rw [hthr'] at hd
   unfold WOK Psi
-  split at hd
-  · split at hd
-    · split at hd
-      · cases hd
-      · rename_i s rest hsrc
+  generalize thr p d.width = t at *
+  by_cases hlt : d.bits < t
+  · simp only [hlt, if_true] at hd
+    by_cases hsh : t < 16777216
+    · simp only [hsh, if_true] at hd
+      cases hsrc : d.src with
+      | nil => simp [hsrc] at hd
+      | cons s rest =>
+        simp only [hsrc] at hd
         cases hd
-        simp only [hsrc, List.length_cons, land32]
-        simp only [land32] at l0
+        simp only [List.length_cons, land32]
+        have hm : t * 256 % 4294967296 = t * 256 := Nat.mod_eq_of_lt (by omega)
+        rw [hm] at l0 ⊢
         refine ⟨⟨by omega, by omega⟩, by omega⟩
-    · cases hd
+    · simp only [hsh, if_false] at hd
+      cases hd
+      dsimp only
       refine ⟨⟨by omega, by omega⟩, by omega⟩
-  · split at hd
-    · split at hd
-      · cases hd
-      · rename_i s rest hsrc
+  · simp only [hlt, if_false] at hd
+    by_cases hsh : d.width - t < 16777216
+    · simp only [hsh, if_true] at hd
+      cases hsrc : d.src with
+      | nil => simp [hsrc] at hd
+      | cons s rest =>
+        simp only [hsrc] at hd
         cases hd
-        simp only [hsrc, List.length_cons, land32]
-        simp only [land32] at l1
+        simp only [List.length_cons, land32]
+        have hm : (d.width - t) * 256 % 4294967296 = (d.width - t) * 256 := Nat.mod_eq_of_lt (by omega)
+        rw [hm] at l1 ⊢
         refine ⟨⟨by omega, by omega⟩, by omega⟩
-    · cases hd
+    · simp only [hsh, if_false] at hd
+      cases hd
+      dsimp only
       refine ⟨⟨by omega, by omega⟩, by omega⟩
 
 theorem decodeBit_probOK (p : Nat) (d : RangeDecoder) (b p' : Nat) (d' : RangeDecoder) (h : ProbOK p)
@@ -135,7 +162,7 @@ theorem decodeByteLoop_pot (base : Nat) : ∀ (n index : Nat) (probs : Array Nat
     intro index probs d r hp hw h
     simp only [decodeByteLoop] at h
     cases h
-    exact ⟨hp, hw, by omega⟩
+    exact ⟨hp, hw, by dsimp only; omega⟩
   | succ n ih =>
     intro index probs d r hp hw h
     simp only [decodeByteLoop] at h
@@ -181,6 +208,7 @@ theorem decodeRawLoop_pot : ∀ (size pos : Nat) (prev : UInt8) (pp lp : Array N
           · rename_i index probs' d'' hloop
             cases hsome
             obtain ⟨r1, r2, r3⟩ := decodeByteLoop_pot _ _ _ _ _ _ hlp hw1 hloop
+            dsimp only at r1 r2 r3
             have := ih ((pos + 1) &&& 0xFFFFFFFF) index.toUInt8 _ _ _ (dst.push index.toUInt8) eu hpp' r1 r2
             rw [Array.size_push] at this
             omega
@@ -194,9 +222,8 @@ theorem decodeRaw_bound (dst : Array UInt8) (src : List UInt8) (size : Nat) (eu 
   · rename_i s0 s1 s2 s3 s4 rest
     split
     · dsimp only; omega
-    · have hw : WOK { src := rest,
-          bits := (s1.toNat <<< 24) ||| (s2.toNat <<< 16) ||| (s3.toNat <<< 8) ||| s4.toNat,
-          width := 0xFFFFFFFF } := by unfold WOK; dsimp only; omega
+    · have hw : WOK (⟨rest, (s1.toNat <<< 24) ||| (s2.toNat <<< 16) ||| (s3.toNat <<< 8) ||| s4.toNat,
+          0xFFFFFFFF⟩ : RangeDecoder) := by unfold WOK; dsimp only; omega
       have := decodeRawLoop_pot size 0 0 initPosProbs initLitProbs _ dst eu initPosProbs_ok initLitProbs_ok hw
       have hpl := pot_le 0xFFFFFFFF
       unfold Psi at this
